@@ -237,6 +237,54 @@ CLAIMED = {
              "and replies bypassing setFinalReply are not decided.",
         technique="path-sensitive disjunction over guards and passed-events (must-pass on all exits), whole-program override enumeration, per-enumerator switch folding, RESPONSE on the loop",
         design="5/C20"),
+    "C36": dict(
+        text="At every base64_decode_update() in the HTTP core the destination was obtained with capacity BASE64_DECODE_LENGTH(len) (+1 where a terminator is "
+             "written) over the same len passed as input length; decoded text is terminated/kept only if decode_update and decode_final both succeeded; decoded "
+             "credentials containing CR or LF are released before returning; the user name ends at the first colon and the password is the text after it. "
+             "The codec's own round-trip (lib/base64.c) and helper programs are not decided.",
+        technique="call-argument/allocation-expression agreement (ARGS) + CFG dominance with history facts + response rule",
+        design="5/C36"),
+    "C21": dict(
+        text="Commit discipline of the incremental request parser: buf_ and parsingStage_ change only at checkpoints reached after every field parser, the LF "
+             "search or the MIME terminator succeeded; failures and need-more verdicts leave them untouched; each stage step runs only under its own stage on the "
+             "caller's whole buffer; the parser object and inBuf stay in sync across reads; leading-empty-line skipping never becomes final for lack of a lookahead "
+             "byte (found and repaired: a CRLF split between reads gave 400). Equality of outcomes over all inputs and splits is not decided.",
+        technique="commit-discipline dominance/response rules + lookahead rule over the incremental parser CFGs + unit-local who-writes",
+        design="5/C21"),
+    "C23": dict(
+        text="Status comes from int64(v,10,false,3) and is bounded to [100,599] on every normal return, the version from int64(v,10,false,1); the HTTP/0.9 "
+             "fallback is reachable only when neither magic matched nor buf_ is a proper prefix of one; msgProtocol_, buf_ and completedStatus_ are committed "
+             "together in program order after the throwing step, with handlers leaving state untouched. Reason-phrase grammar and outcome equality across splits "
+             "are not decided.",
+        technique="guard-interval, argument-constant and checkpoint-order rules on ResponseParser",
+        design="5/C23"),
+    "C24": dict(
+        text="parseChunkSize: 0x/0X rejection precedes int64(.,16,false) and a hit always throws; sizes are stored only from the parsed non-negative value with "
+             "atEnd false; need-more only at end of input. parseChunkBody: copy, consume and decrement use one min()-bounded amount in a fixed order. CRLF is "
+             "required before every chunk-end/suffix checkpoint, every stage change follows a buf_ checkpoint, InsufficientInput only at end of input. Decoded-byte "
+             "equality is not decided.",
+        technique="ORDER/ARGS/response rules and an all-or-nothing sequence check on TeChunkedParser",
+        design="5/C24"),
+    "C25": dict(
+        text="HttpHeader::parse never accepts a block with NUL, a missing LF, a CR-only request line, a blank continuation, an unparsable field, or a folded/"
+             "bare-CR Content-Length/Transfer-Encoding; HttpHeaderEntry::parse returns nullptr for every listed malformation, trims only bounded whitespace and "
+             "stores exactly the (name, value) spans; packInto emits name, ': ', value, CRLF for every stored entry. parse-pack identity is not decided.",
+        technique="rejection-gate response/dominance rules + pack-sequence (SIBLING) comparison",
+        design="5/C25"),
+    "C26": dict(
+        text="ContentLengthInterpreter: value/sawGood are written only by checkValue after the findDigits, httpHeaderParseOffset, non-negative and goodSuffix "
+             "gates and never once a value exists; a second value is flagged bad unless equal under relaxed parsing; lists are never kept and are bad under strict "
+             "parsing; nobody else writes the verdict fields (whole program); HttpHeader::parse keeps a Content-Length only if checked, removes/flags bad ones and "
+             "re-adds only clen.value with sawGood and !sawBad. Numeric exactness (C27) is not decided.",
+        technique="gate dominance/response, provenance (ARGS) and whole-program who-writes",
+        design="5/C26"),
+    "C29": dict(
+        text="Every HttpHdrCcType has its table row, RFC name and a case in both parse and packInto; a numeric directive's bit is set only after a successful "
+             "non-negative conversion into its own member, an invalid value must run the directive's clear method (fails for max-stale: known finding), pack "
+             "prints the same member; flags use their own setter, list values are appended only after a successful quoted-string parse, duplicates are skipped; "
+             "the converter must not be atoi-class (it is: known finding). Value round-trip equality is not decided.",
+        technique="enum/table/switch exhaustiveness (ENUMTABLE), per-case dominance/response, banned-callee (LOSSY) rule",
+        design="5/C29"),
 }
 
 NOT_APPLICABLE = {
